@@ -15,11 +15,11 @@ cd "$W/wt"
 [ -d /repo/target ] && cp -r /repo/target target
 ok=0
 git apply "$D/patch.diff" || { echo "PATCH DOES NOT APPLY"; exit 2; }
-s1=$(cargo test --offline 2>&1 | grep -E "^test result|error(\[|:)" | tr '\n' ' ')
+s1=$(cargo test --offline 2>&1 | grep -E "^test result|^error(\[|:)" | tr '\n' ' ')
 echo "suite(with change): $s1"
 echo "$s1" | grep -q "FAILED\|error" && ok=1
 echo "$s1" | grep -q "test result: ok" || ok=1
-s2=$(cargo test --offline --features serde 2>&1 | grep -E "^test result|error(\[|:)" | tr '\n' ' ')
+s2=$(cargo test --offline --features serde 2>&1 | grep -E "^test result|^error(\[|:)" | tr '\n' ' ')
 echo "serde(with change): $s2"
 echo "$s2" | grep -q "FAILED\|error" && ok=1
 mkdir -p tests
